@@ -1,23 +1,33 @@
 """C13 — an incident keeps one identity from open to close."""
 import notifiergen as G
 
-CORR = "corr:notifier.checkAndSendResponseToModules+notifyModule (Notifier.on_response)"
+CORR = "corr:notifier.checkAndSendResponseToModules+notifyModule+processConsumerList+processClusterList (Notifier.on_event)"
 
 
 def run(chk, failed):
-    chk.rule = ("histories of evaluator responses pushed through the real responseLoop/checkAndSendResponseToModules/notifyModule "
-                "with the virtual clock: 1-30 results over {NOTFOUND, OK, WARN, ERR (+STOP/STALL/REWIND as noise)} in runs, 1-3 groups x "
-                "1-2 clusters interleaved, 1-4 recording modules drawn from the full product threshold{1,2,3} x send-interval{0,60} x "
-                "send-once x send-close (+defaults, AcceptConsumerGroup false, allow/deny regexps accepting and rejecting); per response the "
-                "sorted set of Notify calls (module, cluster, group, status, canonical event id, start clock, stateGood) and the final "
-                "incident records are compared with the extracted model; non-trivial = the history contains at least two incidents "
-                "of one (cluster, group); distinct by the case line")
-    G.check_body(chk, failed, "C13", G.oracle_c13, ["groups", "groups", "groups", "clock"], 40000, 800000, CORR)
+    chk.rule = ("histories of evaluator responses and refreshes pushed through the real responseLoop/checkAndSendResponseToModules/"
+                "notifyModule, the real processConsumerList (group list through its reply channel) and the real sendClusterRequest/"
+                "processClusterList (the probe answers the storage requests), with the virtual clock: 1-30 results over {NOTFOUND, OK, "
+                "WARN, ERR (+STOP/STALL/REWIND as noise)} in runs, 1-3 groups x 1-2 clusters interleaved, 1-4 recording modules drawn "
+                "from the full product threshold{1,2,3} x send-interval{0,60} x send-once x send-close (+defaults, AcceptConsumerGroup "
+                "false, allow/deny regexps accepting and rejecting); nothing is registered by hand - records exist only through refresh "
+                "steps, which fall before the first response, between the results of an open incident, just before the closing OK and "
+                "outside incidents, and list all groups / a superset / a subset (dropping the group with the open incident) / nothing / a "
+                "closed reply channel / another cluster's groups / duplicates / an unknown cluster, or are whole cycles (cluster list + "
+                "group lists, clusters dropped and added); per step the sorted set of Notify calls (module, cluster, group, status, "
+                "canonical event id, start clock, stateGood) and at the end the cluster entries and every incident record (id, start, "
+                "LastNotify per module) are compared with the extracted model; the C13 oracle (computed from the history alone: an "
+                "incident's id/start survive every refresh that still lists the group; exactly one close per send-close module at the "
+                "closing OK; no close otherwise) runs on every call log of the implementation; non-trivial = the history contains at "
+                "least two incidents of one (cluster, group); distinct by the case line")
+    G.check_body(chk, failed, "C13", G.oracle_c13, ["groups", "groups", "groups", "clock"], 30000, 600000, CORR)
     chk.assumptions += [
         "uuid.NewRandom is fresh (the model draws 1,2,3..; the probe numbers event ids by first appearance in the incident record)",
-        "every (cluster, group) of a history is registered before its first response and never deleted (processConsumerList's add/delete of groups is not modelled; a deleted and re-added group starts a new record)",
-        "responses of one group are handled one at a time (responseLoop starts one goroutine per response; two in-flight responses of the same group race on the unlocked record, which the model cannot exhibit)",
+        "the steps of a history are handled one at a time: responses of one group do not overlap (responseLoop starts one goroutine per response; two in-flight responses of the same group race on the unlocked record) and a refresh does not overlap a response of its cluster (they exclude each other through clusterGroups.Lock); every interleaving of whole steps is a history",
+        "no response arrives for a cluster that has no entry in nc.clusters (the real checkAndSendResponseToModules dereferences the missing entry and panics; sendEvaluatorRequests only asks for evaluations of recorded groups of known clusters and the storage module's cluster list is its static configuration); the model drops such a response and the probe does not run it",
+        "consumerGroup.LastEval (evaluation scheduling, random initial value) is not modelled: it plays no part in what a response does",
         "module names are distinct (keys of nc.modules); Go's map iteration order only permutes the calls of one response (theorem notify_all_perm), compared as a sorted set",
+        "a group that leaves the notifier's list while its incident is open gets no close notification (theorem dropped_incident_never_notified) - outside the property: such a group has no further evaluations, hence no 'first evaluation in which it is OK again'",
     ]
 
 
